@@ -24,9 +24,16 @@
   `F_dagger` is proved for diagrams whose boxes satisfy the box-level dagger
   law (`F_dagger_partial`; generator boxes do) and refuted in general (`F6_swap_witness`).  FALSE for the code (finding F6, witnessed on the real code):
   `F(Swap(x,y)†) = F(Swap(x,y))†` when both images have ≥ 2 wires.
+  FREE-CATEGORY level (`cat.Functor` on a plain `cat.Arrow`, cat.py:878-879, the branch monoidal and
+  rigid functors never reach; `CFunctor.applyArrow`, Model/CatArrow.lean, plain images): `CF_image`
+  (closed form: the boxes of the box images one after the other, from `F(dom)`), `CF_id`, `CF_then`,
+  `CF_thenN` (`F(a.then(b₁, …, bₙ)) = F(a).then(F(b₁), …, F(bₙ))`), `CF_typing`.  Formal sums as box
+  images at that level are not in `CFunctor`: a plain arrow is the diagram on one-wire types with every
+  offset 0, and the correspondence sends such requests to `FunctorS.applyS` (`F_then_sumimg`).
 -/
 import Proofs.FunctorSum
 import Proofs.FunctorSumImg
+import Proofs.CatFunctor
 
 namespace DV.C04
 open DV
@@ -330,5 +337,60 @@ example : FS0.okOn f := by
   rcases ht with rfl | rfl
   · exact ⟨Diagram.ofBox_wf _, rfl, rfl⟩
   · exact ⟨Diagram.ofBox_wf _, rfl, rfl⟩
+
+/-! ### The free-category level: `cat.Functor` on plain arrows (cat.py:878-879) -/
+
+/-- The image in closed form: it starts on the image of the domain and its boxes are the boxes of
+    the box images, one after the other. -/
+theorem CF_image (F : CFunctor) (a r : LArrow) (h : F.applyArrow a = .ok r) :
+    ∃ t imgs, F.obj a.dom = .ok t ∧ F.images a.boxes = .ok imgs ∧ AJunctions t imgs ∧
+      r = ⟨t, alastCod t imgs, (imgs.map (·.boxes)).flatten⟩ := F.applyArrow_eq h
+
+/-- With box images typed `F(dom) → F(cod)` the image of a well-typed arrow exists, is well-typed,
+    and goes from the image of the domain to the image of the codomain. -/
+theorem CF_typing (F : CFunctor) (a : LArrow) (t : Ty) (imgs : List LArrow)
+    (hF : F.ImagesWF) (ha : a.WF) (hb : ∀ l ∈ a.boxes, F.okOn l)
+    (ht : F.obj a.dom = .ok t) (hi : F.images a.boxes = .ok imgs) :
+    ∃ r, F.applyArrow a = .ok r ∧ r.WF ∧ F.obj a.dom = .ok r.dom ∧ F.obj a.cod = .ok r.cod :=
+  F.applyArrow_typed hF ha hb ht hi
+
+theorem CF_id (F : CFunctor) (t t' : Ty) (h : F.obj t = .ok t') :
+    F.applyArrow (LArrow.id t) = .ok (LArrow.id t') := F.applyArrow_id h
+
+/-- `F(a >> b) = F(a) >> F(b)` for functors of the free category. -/
+theorem CF_then (F : CFunctor) (a b ab fa fb : LArrow) (ha : a.WF)
+    (hok : ∀ l ∈ a.boxes, F.okOn l) (hab : a.then b = .ok ab)
+    (hfa : F.applyArrow a = .ok fa) (hfb : F.applyArrow b = .ok fb) :
+    ∃ r, fa.then fb = .ok r ∧ F.applyArrow ab = .ok r := F.applyArrow_then ha hok hab hfa hfb
+
+/-- `F(a.then(b₁, …, bₙ)) = F(a).then(F(b₁), …, F(bₙ))`. -/
+theorem CF_thenN (F : CFunctor) (a d fa : LArrow) (bs fbs : List LArrow)
+    (ha : a.WF) (hbs : ∀ b ∈ bs, b.WF)
+    (hok : ∀ l ∈ a.boxes, F.okOn l) (hoks : ∀ b ∈ bs, ∀ l ∈ b.boxes, F.okOn l)
+    (h : a.thenN bs = .ok d) (hfa : F.applyArrow a = .ok fa) (hfbs : F.ImagesOf bs fbs) :
+    ∃ r, fa.thenN fbs = .ok r ∧ F.applyArrow d = .ok r :=
+  F.applyArrow_thenN ha hbs hok hoks h hfa hfbs
+
+private def ox : Ty := [{ name := "x" }]
+private def oy : Ty := [{ name := "y" }]
+private def oz : Ty := [{ name := "z" }]
+private def cf : Layer := ⟨[], { name := "f", dom := ox, cod := oy }, []⟩
+private def cg : Layer := ⟨[], { name := "g", dom := oy, cod := oz }, []⟩
+private def ca : Layer := ⟨[], { name := "a", dom := oy, cod := oy }, []⟩
+private def cb : Layer := ⟨[], { name := "b", dom := oy, cod := ox }, []⟩
+/-- x ↦ y, y ↦ y, z ↦ x; f ↦ a >> a, g ↦ b. -/
+private def CF0 : CFunctor :=
+  { ob := [(ox, oy), (oy, oy), (oz, ox)],
+    ar := [(cf, ⟨⟨oy, oy, [ca, ca]⟩, false⟩), (cg, ⟨cb.arrow, true⟩)] }
+
+example : CF0.applyArrow ⟨ox, oz, [cf, cg]⟩ = .ok ⟨oy, ox, [ca, ca, cb]⟩ := by decide
+example : (match CF0.applyArrow cf.arrow, CF0.applyArrow cg.arrow with
+    | .ok a, .ok b => a.then b
+    | _, _ => .error .value) = CF0.applyArrow ⟨ox, oz, [cf, cg]⟩ := by decide
+example : CF0.okOn cf := by
+  intro x hx
+  have h : CF0.box cf = .ok ⟨⟨oy, oy, [ca, ca]⟩, false⟩ := by decide
+  rw [h] at hx; cases hx; exact ⟨by decide, by decide⟩
+example : CF0.ImagesOf [cg.arrow] [cb.arrow] := ⟨by decide, trivial⟩
 
 end DV.C04
